@@ -117,7 +117,10 @@ def run_edges(spec, cfg, workdir_prefix="/tmp/indipy-tlc-"):
     meta = tempfile.mkdtemp(prefix=workdir_prefix)
     try:
         cmd = ["tlc", "-workers", "1", "-noGenerateSpecTE", "-metadir", meta, "-deadlock", "-config", cfg, spec]
-        proc = subprocess.Popen(cmd, cwd=TLA_DIR, stdout=subprocess.PIPE, stderr=subprocess.STDOUT, text=True)
+        # the JVM's own scratch directory (java.io.tmpdir: TLC leaves an empty tlc-<n> directory there) goes into the
+        # metadir as well, so that nothing is left behind under /tmp
+        env = dict(os.environ, JAVA_TOOL_OPTIONS=(os.environ.get("JAVA_TOOL_OPTIONS", "") + " -Djava.io.tmpdir=" + meta).strip())
+        proc = subprocess.Popen(cmd, cwd=TLA_DIR, stdout=subprocess.PIPE, stderr=subprocess.STDOUT, text=True, env=env)
         buf = None
         tail = []
         summary = {}
